@@ -317,6 +317,31 @@ class ToListH(_Arr):
             out.append((f"to_list.order[{r_}]", ids == [v.id for v in vs if v.id in ids]))
         return out
 
+    def concretise(self, case, k, model, c, st):
+        from .common import _mv
+        g = lambda x: _mv(model, x.t)
+        e = st["e"]
+        return {"case": dict(case), "e": [g(x) for x in e] if case["ndim"] == 1 else [[g(x) for x in row] for row in e]}
+
+    def replay(self, w):
+        import puan
+        import puan.ndarray as pnd
+        k = w["case"]["k"]
+        vs = [puan.variable(f"v{j}") for j in range(k)]
+        arr = pnd.boolean_ndarray(w["e"], variables=vs)
+        res = arr.to_list()
+        rows = [w["e"]] if w["case"]["ndim"] == 1 else w["e"]
+        got = [res] if w["case"]["ndim"] == 1 else res
+        violated, detail = [], {"array": w["e"], "to_list": [[str(v.id) for v in lst] for lst in got]}
+        for r_, (ent, lst) in enumerate(zip(rows, got)):
+            ids = [v.id for v in lst]
+            for j, v in enumerate(vs):
+                if (v.id in ids) != (ent[j] == 1):
+                    violated.append(f"to_list[{r_},{j}]")
+            if ids != [v.id for v in vs if v.id in ids]:
+                violated.append(f"to_list.order[{r_}]")
+        return {"violated": sorted(set(violated)), "detail": detail}
+
 
 class FromListH(_Arr):
     """integer_ndarray.from_list / boolean_ndarray.from_list for a list of ids (symbolic ids: any of them may or may not
